@@ -307,7 +307,7 @@ func VerifJSONTemplate(n int) {
 	verifJSONValue(total, in, buf)
 }
 
-var verifJSONExpSuffixes = []string{"e0", "e1", "e2", "e3", "e4", "e-1", "e-2", "e-5", "E+7", "e12"}
+var verifJSONExpSuffixes = []string{"e0", "e1", "e2", "e3", "e4", "e-1", "e-2", "e-5", "E+7", "e12", "e-8", "e-9", "e-10", "e-95"}
 
 // VerifJSONNumberExp: [<mantissa of n symbolic bytes><exponent suffix>]: the number shapes with an exponent that
 // the n<=4 value holes cannot reach (1.25e2 is 6 bytes), decided inside a document.
